@@ -103,7 +103,8 @@ def run(ctx):
     # the real inference accepts a body the model rejects: isolate the body (stubbed callees, free package-level
     # values) and look for a run that returns nil for a non-nil argument, and for the caller that panics silently
     if bad["infer"] and not bad["untrue"]:
-        vs = [PF.Case("i%03d%d" % (i, j), PF.isolate(c.prog, f), "search") for i, (c, o, f) in enumerate(bad["infer"][:10]) for j in range(8)]   # 8 spellings each
+        vs = [PF.Case("i%03d%d" % (i, j), PF.isolate(c.prog, f), "search") for i, (c, o, f) in enumerate(bad["infer"][:10]) for j in range(6)]   # 6 spellings each
+        vs += [PF.Case("j%03d%d" % (i, j), PF.isolate_globals(c.prog, f), "search") for i, (c, o, f) in enumerate(bad["infer"][:10]) for j in range(4)]
         rs = PF.run_suite(ctx, vs, styles_seed=ctx.seed + 77, nb=6)
         if "error" not in rs:
             for c in vs:
